@@ -2,6 +2,7 @@ SPECIFICATION Spec
 CONSTANTS
   TruncateBytesThenDecode = FALSE
   StopTimerNeedsFloat = FALSE
+  RecorderConversionPartial = FALSE
 INVARIANT NonInterference
 INVARIANT ObserversTotal
 INVARIANT StatsOnce
